@@ -200,6 +200,7 @@ def ltf_plan(**args):
         nseg = int(round_half_up((N - dftlen) / (xov * dftlen) + 1))
         if nseg == 1:
             dftlen = N
+        nseg = min(nseg, N - dftlen + 1)
 
         fres = fs / dftlen
         fbin = fi / fres
@@ -218,7 +219,7 @@ def ltf_plan(**args):
     for j in range(nf):
         L_j = int(L_arr[j])
         L_arr[j] = L_j
-        averages = int(round_half_up(((N - L_j) / (1 - olap)) / L_j + 1))
+        averages = int(K_arr[j])
         navg_arr.append(averages)
 
         if averages == 1:
